@@ -186,7 +186,8 @@ LEVEL_TEXT = ("Proof: C16_counts_and_durations (one row per distinct pattern; it
               "them, for every list of instances), C16_pattern_in_start_order, C16_pattern_equality_decided; the instance selection (matching rows at the shallowest "
               "depth with num_kernels >= min_pattern_len) and the pattern (name followed by the device activities beneath, in start order) are the model's definitions "
               "on top of C13's call-graph model (whose columns are validated by C13's verified checker). Correspondence on every row and the row order of "
-              "get_frequent_cuda_kernel_sequences for operator names occurring in the trace, min_pattern_len 1..4, top_k 1..5.")
+              "get_frequent_cuda_kernel_sequences for operator names occurring in the trace, min_pattern_len 1..4, top_k 1..5."
+              " C16_resolution_independent: times multiplied by k > 0 give the same patterns and counts and k times both durations.")
 LEVEL_NOTE = ("Hand model composed of C03's proved builder, C13's call-graph model, get_descendants and the dictionary accumulation. The overlaid trace file is not "
               "examined here.")
 TECHNIQUE = "Coq proof (group-by counting over patterns) over a composed Gallina model + differential correspondence via vm_compute"
